@@ -383,6 +383,7 @@ class Ctx:
         self.nz = {}
         self.names = {}
         self.unknown_branch = 0
+        self.roots_used = set()
 
     def ensure(self, vids):
         for v in vids:
@@ -419,12 +420,32 @@ class Ctx:
             STATS.unknown += 1
         return r
 
+    def root_axioms(self, nonlinear=True):
+        ax = []
+        for L in sorted(self.roots_used):
+            cs, lin, nl = _root_atoms(L)
+            ax += lin
+            if nonlinear:
+                ax += nl
+        return ax
+
     def model(self, *extra):
         """(status, model) for assumptions + path condition + extra."""
         STATS.queries += 1
         t0 = time.time()
         self.solver.push()
         self.solver.add(*extra)
+        if self.roots_used:
+            # stage 1: linear theorems about roots of unity only (an unsat here is a fortiori an unsat with all axioms)
+            self.solver.push()
+            self.solver.add(*self.root_axioms(False))
+            r1 = str(self.solver.check())
+            self.solver.pop()
+            if r1 == 'unsat':
+                self.solver.pop()
+                STATS.solver_s += time.time() - t0
+                return 'unsat', None
+            self.solver.add(*self.root_axioms(True))
         r = str(self.solver.check())
         m = self.solver.model() if r == 'sat' else None
         self.solver.pop()
@@ -727,7 +748,10 @@ class SNum:
             return SNum(Poly.const(abs(c)), s.is_int)
         if _known_nonneg(s.p):
             return s
-        return ite(s >= 0, s, -s)
+        sg = _known_sign(s.p)
+        if sg == -1:
+            return -s
+        return sx_abs(s)
 
     def _cmp(s, o, op):
         if isinstance(o, rnp.ndarray):
@@ -969,6 +993,28 @@ def sx_sqrt(x):
         v.ev = lambda env, p=p: math.sqrt(max(p.evalf(env), 0.0))
         SQRT[v.id] = p
     return SNum(Poly.var(v.id), False)
+
+
+def sx_abs(x):
+    """|x| as an atom q with q = If(x >= 0, x, -x); the normal form knows q^2 = x^2."""
+    p = x.p
+    lead = min(p.t.items(), key=lambda kv: kv[0])[1]
+    if lead < 0:
+        p = -p
+    v = mkvar(('abs', p.key()), None, 'I' if (x.is_int and int_poly(p)) else 'R', 'abs', {'nonneg': True})
+    if not v.defs:
+        v.deps = tuple(p.vars())
+        if v.sort == 'I':
+            xz = lower(p, True)
+        else:
+            xz = lower(p)
+        v.defs = [v.z == z3.If(xz >= 0, xz, -xz)]
+        v.ev = lambda env, p=p: abs(p.evalf(env))
+        SQRT[v.id] = p * p
+    c0 = CUR[0]
+    if c0 is not None:
+        c0.ensure([v.id])
+    return SNum(Poly.var(v.id), x.is_int)
 
 
 def _round_atom(kind, x):
@@ -1521,36 +1567,37 @@ ROOTS = {}
 
 
 def _root_atoms(L):
-    """(cos, sin) z3 terms of e(k/L), k in Z_L, with the axioms that pin them (all theorems)."""
+    """(cos, sin) z3 terms of e(k/L), k in Z_L, with linear axioms (theorems about roots of unity:
+    conjugate symmetry, vanishing subgroup/coset sums, half/quarter-turn relations) and the
+    non-linear ones (unit modulus, first-quadrant signs)."""
     if L in ROOTS:
         return ROOTS[L]
-    ax = []
+    lin, nl = [], []
     exact = {1: [(1, 0)], 2: [(1, 0), (-1, 0)], 4: [(1, 0), (0, 1), (-1, 0), (0, -1)]}
     if L in exact:
         cs = [(z3.RealVal(a), z3.RealVal(b)) for a, b in exact[L]]
     else:
         cs = [(z3.Real(f'rc{L}_{j}'), z3.Real(f'rs{L}_{j}')) for j in range(L)]
-        ax += [cs[0][0] == 1, cs[0][1] == 0]
+        lin += [cs[0][0] == 1, cs[0][1] == 0]
         for k in range(1, L):
-            ax += [cs[k][0] == cs[(L - k) % L][0], cs[k][1] == -cs[(L - k) % L][1]]
-            ax += [cs[k][0] * cs[k][0] + cs[k][1] * cs[k][1] == 1]
+            lin += [cs[k][0] == cs[(L - k) % L][0], cs[k][1] == -cs[(L - k) % L][1]]
+            nl += [cs[k][0] * cs[k][0] + cs[k][1] * cs[k][1] == 1]
         for g in range(1, L):
             if L % g == 0:
                 for a in range(g):
-                    ax += [z3.Sum([cs[(a + g * j) % L][0] for j in range(L // g)]) == 0,
-                           z3.Sum([cs[(a + g * j) % L][1] for j in range(L // g)]) == 0]
+                    lin += [z3.Sum([cs[(a + g * j) % L][0] for j in range(L // g)]) == 0,
+                            z3.Sum([cs[(a + g * j) % L][1] for j in range(L // g)]) == 0]
         if L % 2 == 0:
             for k in range(L // 2):
-                ax += [cs[k + L // 2][0] == -cs[k][0], cs[k + L // 2][1] == -cs[k][1]]
+                lin += [cs[k + L // 2][0] == -cs[k][0], cs[k + L // 2][1] == -cs[k][1]]
         if L % 4 == 0:
             q = L // 4
             for k in range(L):
-                ax += [cs[(k + q) % L][0] == -cs[k][1], cs[(k + q) % L][1] == cs[k][0]]
-        # signs in the first quadrant (true facts; help nlsat)
+                lin += [cs[(k + q) % L][0] == -cs[k][1], cs[(k + q) % L][1] == cs[k][0]]
         for k in range(1, L):
             if 4 * k < L:
-                ax += [cs[k][0] > 0, cs[k][1] > 0]
-    ROOTS[L] = (cs, ax)
+                nl += [cs[k][0] > 0, cs[k][1] > 0]
+    ROOTS[L] = (cs, lin, nl)
     return ROOTS[L]
 
 
@@ -1581,10 +1628,9 @@ def lower_cx(z, L=None):
         for k in keys:
             d = k.t.get((), Fraction(0)).denominator
             L = L * d // math.gcd(L, d)
-    cs, ax = _root_atoms(L)
-    if c is not None and ax and ('roots', L) not in c.ensured:
-        c.ensured.add(('roots', L))
-        c.solver.add(*ax)
+    cs, lin, nl = _root_atoms(L)
+    if c is not None and L > 1:
+        c.roots_used.add(L)
     RE, IM = [], []
     for k, (a, b) in z.t.items():
         const = k.t.get((), Fraction(0))
@@ -1604,6 +1650,95 @@ def lower_cx(z, L=None):
     re = z3.Sum(RE) if RE else z3.RealVal(0)
     im = z3.Sum(IM) if IM else z3.RealVal(0)
     return re, im
+
+
+LIN_SOLVERS = {}
+
+
+def clear_inverses(polys):
+    """Multiply a family of polynomials by the common power of every inverse-atom's denominator and use w*P = 1:
+    with d = sum_j d_j w^j (j <= e),  d * P^e = sum_j d_j P^(e-j).  Zero-ness of the family is preserved (P != 0)."""
+    polys = list(polys)
+    for _ in range(8):
+        ws = set()
+        for p in polys:
+            for m in p.t:
+                for v, e in m:
+                    if v in INV and e > 0:
+                        ws.add(v)
+        if not ws:
+            break
+        w = min(ws)
+        pn = INV[w]
+        emax = max((e for p in polys for m in p.t for v, e in m if v == w), default=0)
+        out = []
+        for p in polys:
+            acc = P0
+            for m, c in p.t.items():
+                j = 0
+                rest = []
+                for v, e in m:
+                    if v == w:
+                        j = e
+                    else:
+                        rest.append((v, e))
+                acc = acc + Poly({tuple(rest): c}) * pn.pow(emax - j)
+            out.append(acc)
+        polys = out
+    return polys
+
+
+def roots_linear_zero(D):
+    """Sufficient test for D == 0 decided by z3 in pure linear real arithmetic: group the terms of D by the symbolic
+    part of their phase; inside a group, for every monomial mu of the coefficient polynomials the rational numbers
+    (a_k, b_k) multiplying e(k/L) must satisfy  sum_k (a_k + i b_k) zeta^k = 0, which z3 decides from the linear
+    theorems about roots of unity (conjugate symmetry, vanishing subgroup/coset sums).  Returns True iff every such
+    statement is entailed (unsat of its negation)."""
+    groups = {}
+    L = 1
+    for k, (re, im) in D.t.items():
+        const = k.t.get((), Fraction(0))
+        sym = Poly({m: cf for m, cf in k.t.items() if m != ()})
+        groups.setdefault(sym, []).append((const, re, im))
+        L = L * const.denominator // math.gcd(L, const.denominator)
+    cs, lin, nl = _root_atoms(L)
+    disj = []
+    for sym, terms in groups.items():
+        monos = set()
+        for const, re, im in terms:
+            monos.update(re.t)
+            monos.update(im.t)
+        for mu in monos:
+            RE, IM = [], []
+            for const, re, im in terms:
+                a, b = re.t.get(mu, 0), im.t.get(mu, 0)
+                c_, s_ = cs[int(const * L) % L]
+                if a:
+                    RE.append(zval(Fraction(a)) * c_)
+                    IM.append(zval(Fraction(a)) * s_)
+                if b:
+                    RE.append(zval(Fraction(-b)) * s_)
+                    IM.append(zval(Fraction(b)) * c_)
+            if RE:
+                disj.append(z3.Sum(RE) != 0)
+            if IM:
+                disj.append(z3.Sum(IM) != 0)
+    if not disj:
+        return True
+    sol = LIN_SOLVERS.get(L)
+    if sol is None:
+        sol = z3.Solver()
+        sol.set('timeout', 20000)
+        sol.add(*lin)
+        LIN_SOLVERS[L] = sol
+    STATS.queries += 1
+    t0 = time.time()
+    sol.push()
+    sol.add(z3.Or(*disj))
+    r = str(sol.check())
+    sol.pop()
+    STATS.solver_s += time.time() - t0
+    return r == 'unsat'
 
 
 # ----------------------------------------------------------------------------- numeric evaluation (validation / replay)
